@@ -56,62 +56,85 @@ def mergeTags (one two : List Nat) : List Nat :=
 section
 variable (P F : Nat)   -- limits.Packets, limits.Frag
 
+/-- `if n == nil { n = <-q }` -/
+def takeNext (o : Pkt) : Option Pkt → List Pkt → Pkt × List Pkt
+  | some n, q => (n, q)
+  | none, h :: t => (h, t)
+  | none, [] => (o, [])      -- unreachable (the loop condition has `len(q) > 0`)
+
+/-- the keep-alive elision test of the loop -/
+def elide (i : Bytes) (s : Nat) (m : Bool) (n : Pkt) : Bool :=
+  isNoP n && ((decide (s > 0) && !m) || (devEmpty n.dev || decide (n.dev = i)))
+
+/-- `!verifyPacket(n, i) && !m → o.Flags |= FlagMultiDevice; m = true` -/
+def markMD (i : Bytes) (m : Bool) (o n : Pkt) : Pkt × Bool :=
+  if !(verify n i).2 && !m then ({ o with flags := o.flags ||| Facts.flagMultiDevice }, true) else (o, m)
+
+/-- `verifyPacket`, the multi-device mark, `writeUnpack` (its error is ignored by the code) -/
+def packOne (i : Bytes) (m : Bool) (o n : Pkt) : Pkt × Bool :=
+  (match writeUnpack (markMD i m o n).1 (verify n i).1 with
+   | .ok o' => o'
+   | .error _ => (markMD i m o n).1, (markMD i m o n).2)
+
 /-- the batching loop of `nextPacket`: `x` iterations so far, `s` bytes so far, `m` = multi-device
 marked; `n` = packet in hand. Returns (batch, carry-over, remaining queue). -/
 def loop (i : Bytes) : Nat → Nat → Nat → Bool → Pkt → Option Pkt → List Pkt → Pkt × Option Pkt × List Pkt
   | 0, _, _, _, o, n, q => (o, n, q)        -- (fuel exhausted: not reached, fuel = P + 1)
   | fuel + 1, x, s, m, o, n, q =>
     if x < P ∧ q ≠ [] then
-      -- `if n == nil { n = <-q }`
-      let (n, q) : Pkt × List Pkt := match n, q with
-        | some n, q => (n, q)
-        | none, h :: t => (h, t)
-        | none, [] => (o, [])    -- unreachable (q ≠ [])
-      if isNoP n && ((s > 0 && !m) || (devEmpty n.dev || n.dev = i)) then
-        loop i fuel (x + 1) s m o none q
+      if elide i s m (takeNext o n q).1 then
+        loop i fuel (x + 1) s m o none (takeNext o n q).2
+      else if s > 0 ∧ s + Packet.size (takeNext o n q).1 > F then
+        (o, some (takeNext o n q).1, (takeNext o n q).2)       -- does not fit: carried over
       else
-        let s' := s + Packet.size n
-        if s > 0 ∧ s' > F then (o, some n, q)       -- does not fit: carried over
-        else
-          let (n', ok) := verify n i
-          let (o, m) := if !ok && !m then ({ o with flags := o.flags ||| Facts.flagMultiDevice }, true) else (o, m)
-          let o := match writeUnpack o n' with | .ok o' => o' | .error _ => o
-          loop i fuel (x + 1) s' m o none q
+        loop i fuel (x + 1) (s + Packet.size (takeNext o n q).1) (packOne i m o (takeNext o n q).1).2
+          (packOne i m o (takeNext o n q).1).1 none (takeNext o n q).2
     else (o, n, q)
+
+def emptyBatch (i : Bytes) (fl : Nat) : Pkt :=
+  { id := 0, job := 0, flags := fl, tags := [], dev := i, payload := [] }
+
+/-- the branch of `nextPacket` that sends one packet on its own -/
+def single (i : Bytes) (t : List Nat) (n : Pkt) (q : List Pkt) : Option Pkt × Option Pkt × List Pkt :=
+  if (verify n i).2 then (some { (verify n i).1 with tags := (verify n i).1.tags ++ t }, none, q)
+  else
+    (some { (match writeUnpack (emptyBatch i (Facts.flagMulti ||| Facts.flagMultiDevice)) (verify n i).1 with
+            | .ok o' => o'
+            | .error _ => emptyBatch i (Facts.flagMulti ||| Facts.flagMultiDevice)) with
+          tags := (match writeUnpack (emptyBatch i (Facts.flagMulti ||| Facts.flagMultiDevice)) (verify n i).1 with
+                   | .ok o' => o'
+                   | .error _ => emptyBatch i (Facts.flagMulti ||| Facts.flagMultiDevice)).tags ++ t },
+     none, q)
+
+/-- only keep-alives were queued: send one keep-alive instead of an empty batch (repair) -/
+def normEmpty (o : Pkt) : Pkt := if Flag.len o.flags = 0 then { o with id := 0, flags := 0 } else o
+
+/-- a batch of one own packet is sent as that packet -/
+def unwrapOne (o : Pkt) : Pkt :=
+  if Flag.len o.flags = 1 ∧ ¬ hasFlag o.flags Facts.flagMultiDevice ∧ o.id = 0 then
+    match unmarshalStream chunkPrim devReadChunk o.payload with
+    | .ok (v, _) => v
+    | .error _ => emptyBatch (List.replicate Facts.idSize 0) 0
+  else o
+
+/-- what `nextPacket` does with the batch after the loop -/
+def finishBatch (o : Pkt) : Pkt := unwrapOne (normEmpty o)
 
 /-- `nextPacket(a, q, n, i, t)` : (packet to send, carry-over, remaining queue) -/
 def nextPacket (q : List Pkt) (n : Option Pkt) (i : Bytes) (t : List Nat) :
     Option Pkt × Option Pkt × List Pkt :=
   match n, q with
   | none, [] => (none, none, [])
-  | _, _ =>
-    if P ≤ 1 ∨ (n.isSome ∧ q = []) then
-      let (n, q) : Option Pkt × List Pkt := match n, q with
-        | some n, q => (some n, q)
-        | none, h :: t => (some h, t)
-        | none, [] => (none, [])
+  | some n0, [] => single i t n0 []
+  | n, h :: tl =>
+    if P ≤ 1 then
       match n with
-      | none => (none, none, q)
-      | some n =>
-        let (n', ok) := verify n i
-        if ok then (some { n' with tags := n'.tags ++ t }, none, q)
-        else
-          let o : Pkt := { id := 0, job := 0, flags := Facts.flagMulti ||| Facts.flagMultiDevice, tags := [],
-                           dev := i, payload := [] }
-          let o := match writeUnpack o n' with | .ok o' => o' | .error _ => o
-          (some { o with tags := o.tags ++ t }, none, q)
+      | some n0 => single i t n0 (h :: tl)
+      | none => single i t h tl
     else
-      let o : Pkt := { id := 0, job := 0, flags := Facts.flagMulti, tags := [], dev := i, payload := [] }
-      let (o, k, q) := loop P F i (P + 1) 0 0 false o n q
-      -- only keep-alives were queued: send one keep-alive instead of an empty batch (repair)
-      let o := if Flag.len o.flags = 0 then { o with id := 0, flags := 0 } else o
-      -- a batch of one own packet is sent as that packet
-      let o := if Flag.len o.flags = 1 ∧ ¬ hasFlag o.flags Facts.flagMultiDevice ∧ o.id = 0 then
-          match unmarshalStream chunkPrim devReadChunk o.payload with
-          | .ok (v, _) => v
-          | .error _ => { id := 0, job := 0, flags := 0, tags := [], dev := List.replicate Facts.idSize 0, payload := [] }
-        else o
-      (some o, k, q)
+      (some (finishBatch (loop P F i (P + 1) 0 0 false (emptyBatch i Facts.flagMulti) n (h :: tl)).1),
+       (loop P F i (P + 1) 0 0 false (emptyBatch i Facts.flagMulti) n (h :: tl)).2.1,
+       (loop P F i (P + 1) 0 0 false (emptyBatch i Facts.flagMulti) n (h :: tl)).2.2)
 
 structure St where
   q : List Pkt
@@ -147,37 +170,38 @@ def next (st : St) (i : Bytes) : Option Pkt × St :=
           (some { id := 0, job := 0, flags := 0, tags := t, dev := i, payload := [] },
            { q := q, peek := none, last := 0 })
         else
-          let (o, k, q) := nextPacket P F q (some n) i t
-          (o.map fun o => { o with tags := mergeTags o.tags t }, { q := q, peek := k, last := 0 })
+          ((nextPacket P F q (some n) i t).1.map fun o => { o with tags := mergeTags o.tags t },
+           { q := (nextPacket P F q (some n) i t).2.2, peek := (nextPacket P F q (some n) i t).2.1, last := 0 })
       else
-        let (o, k, q) := nextPacket P F q (some n) i t
-        (o.map fun o => { o with tags := mergeTags o.tags t }, { q := q, peek := k, last := st.last })
+        ((nextPacket P F q (some n) i t).1.map fun o => { o with tags := mergeTags o.tags t },
+         { q := (nextPacket P F q (some n) i t).2.2, peek := (nextPacket P F q (some n) i t).2.1, last := st.last })
 
 end
 
 /-! ### receive side -/
 
+/-- read `k` nested packets from `bs`, unpacking each with `rec` -/
+def unpackLevel (rec : Pkt → Except PErr (List Pkt)) : Nat → Bytes → Except PErr (List Pkt)
+  | 0, _ => .ok []
+  | k + 1, bs =>
+    match unmarshalStream chunkPrim devReadChunk bs with
+    | .error e => .error e
+    | .ok (v, rest) =>
+      match rec v with
+      | .error e => .error e
+      | .ok vs =>
+        match unpackLevel rec k rest with
+        | .error e => .error e
+        | .ok ws => .ok (vs ++ ws)
+
 /-- unpack what a transmission carries: the `FlagMulti` arm of `receive` (`Len` nested packets, each
-of which may again be a batch) -/
+of which may again be a batch; `fuel` bounds the nesting depth) -/
 def unpack : Nat → Pkt → Except PErr (List Pkt)
   | 0, _ => .ok []
   | fuel + 1, n =>
     if hasFlag n.flags Facts.flagMulti then
-      let x := Flag.len n.flags
-      if x = 0 then .error .invalidType     -- ErrInvalidPacketCount
-      else
-        let rec go : Nat → Bytes → Except PErr (List Pkt)
-          | 0, _ => .ok []
-          | k + 1, bs =>
-            match unmarshalStream chunkPrim devReadChunk bs with
-            | .error e => .error e
-            | .ok (v, rest) =>
-              match unpack fuel v with
-              | .error e => .error e
-              | .ok vs => match go k rest with
-                | .error e => .error e
-                | .ok ws => .ok (vs ++ ws)
-        go x n.payload
+      if Flag.len n.flags = 0 then .error .invalidType     -- ErrInvalidPacketCount
+      else unpackLevel (unpack fuel) (Flag.len n.flags) n.payload
     else .ok [n]
 
 end XMT.Batch
